@@ -153,6 +153,40 @@ class World:
         raise TranslateError('Crazyflie.send_packet not found')
 
 
+
+# instance attributes an emitting method may read: the Crazyflie handle and the client x-mode flag.  Everything else
+# a packet depends on must come from the arguments or from platform.get_protocol_version() at the time of the call.
+ALLOWED_SELF_ATTRS = {'_cf', 'crazyflie', '_x_mode'}
+
+
+def state_audit(world, rel, cname, mname, seen=None, via=None):
+    """Fail closed unless the method (and every method of its own class it calls) is a function of
+    (arguments, current protocol version, x-mode flag) only: no read or write of other instance attributes."""
+    seen = set() if seen is None else seen
+    if (cname, mname) in seen:
+        return
+    seen.add((cname, mname))
+    mod = world.mods[rel]
+    fn = mod.method(cname, mname)
+    consts = mod.class_consts(cname)
+    methods = {n.name for n in mod.classes[cname].body if isinstance(n, ast.FunctionDef)}
+    where = '%s.%s' % (cname, mname) + (' (called from %s)' % via if via else '')
+    for node in ast.walk(fn):
+        if isinstance(node, ast.Attribute) and isinstance(node.value, ast.Name) and node.value.id == 'self':
+            if isinstance(node.ctx, (ast.Store, ast.Del)):
+                raise TranslateError('%s writes instance state self.%s (line %d): an emitting method must be a function of '
+                                     '(arguments, current protocol version, x-mode flag) only' % (where, node.attr, node.lineno))
+            if node.attr in ALLOWED_SELF_ATTRS or node.attr in consts:
+                continue
+            if node.attr in methods:
+                state_audit(world, rel, cname, node.attr, seen, via='%s.%s' % (cname, mname))
+                continue
+            raise TranslateError('%s reads instance state self.%s (line %d): an emitting method must be a function of '
+                                 '(arguments, current protocol version, x-mode flag) only' % (where, node.attr, node.lineno))
+        if isinstance(node, (ast.Global, ast.Nonlocal)):
+            raise TranslateError('%s uses global/nonlocal state (line %d)' % (where, node.lineno))
+
+
 class Exec:
     """Symbolic execution of one command method (callees inlined)."""
 
@@ -840,6 +874,9 @@ def translate(repo):
     out = []
     info = {}
     sigs = []
+    for (ctor, rel, cls, mname) in COMMANDS:
+        state_audit(w, rel, cls, mname)
+    state_audit(w, 'cflib/crazyflie/localization.py', 'Localization', 'send_short_lpp_packet')
     for (ctor, rel, cls, mname) in COMMANDS:
         ex = Exec(w, rel, cls, mname)
         act = ex.run()
